@@ -277,6 +277,18 @@ def paged_max_results(a):
 
 
 @edit
+def paged_other_file(a):
+    # a second paged RPC whose request/response/item types live in another file of the package
+    f = file('acme/lib/v1/shelves.proto', P,
+             messages=[message('ListShelvesRequest', [field('page_size', 1, 'int32'), field('page_token', 2, 'string')]),
+                       message('ShelfInfo', [field('name', 1, 'string')]),
+                       message('ListShelvesResponse', [field('shelves', 1, Q('ShelfInfo'), repeated=True),
+                                                       field('next_page_token', 2, 'string')])])
+    a.add_file_before(f)
+    a.rpc(method('ListShelves', Q('ListShelvesRequest'), Q('ListShelvesResponse'), http=('get', '/v1/shelves')))
+
+
+@edit
 def deprecated_method(a):
     a.rpc(method('GetBookOld', Q('GetBookRequest'), Q('Book'), http=('get', '/v1/old/{name=shelves/*/books/*}'),
                  deprecated=True, sigs=['name']))
